@@ -174,3 +174,32 @@ Lemma reload_pinned_refuted :
   validator_automata pinned_rebuild_sites greedy_witness_modifiers greedy_witness
   <> validator_automata build_sites greedy_witness_modifiers greedy_witness.
 Proof. vm_compute. discriminate. Qed.
+
+(* ---------------------------------------------------------------- open finding: NaN is not saveable *)
+Definition ext_variants : list (string * N * schema) :=
+  match lookup "ExternalValue"%string write_env with Some (SEnum vs) => vs | _ => [] end.
+Definition float_tag : N :=
+  match find_ctor "Float"%string ext_variants with Some (t, _) => t | None => 0 end.
+
+Lemma ext_lookup : lookup "ExternalValue"%string write_env = Some (SEnum ext_variants).
+Proof. vm_compute. reflexivity. Qed.
+
+Lemma ext_float : find_ctor "Float"%string ext_variants = Some (float_tag, SStruct [("0"%string, SF64)])
+                  /\ (float_tag <? 256) = true.
+Proof. vm_compute. split; reflexivity. Qed.
+
+(* a float external symbol can be saved exactly when it is not a NaN *)
+Lemma float_symbol_saveable_iff_not_nan : forall bits, bits < two64 ->
+  encode write_env (float_symbol bits) (SRef "ExternalValue"%string)
+  = if is_nan bits then None else Some (float_tag :: le 8 bits).
+Proof.
+  intros bits H. apply N.ltb_lt in H. destruct ext_float as [F T].
+  unfold float_symbol. cbn [encode resolve]. rewrite ext_lookup. cbv iota. rewrite F, T.
+  cbn [encode resolve enc_fields fst snd]. rewrite String.eqb_refl.
+  cbn [encode resolve]. rewrite H. destruct (is_nan bits); cbn [andb negb]; [reflexivity|].
+  now rewrite app_nil_r.
+Qed.
+
+Lemma nan_external_refuted :
+  encode write_env (float_symbol quiet_nan_bits) (SRef "ExternalValue"%string) = None.
+Proof. vm_compute. reflexivity. Qed.
